@@ -278,8 +278,26 @@ func c05Exec(t *testing.T, sc *gen.Scenario, trace bool) *harness.Outcome {
 // ---------------------------------------------------------------- C06 ListUsers
 
 func c06Gen(runSeed uint64, tier string) *gen.Scenario {
-	sc := genEngineScenario(runSeed, tier, 0)
 	g := gen.New(runSeed ^ 0xc06)
+	wild := g.Chance(0.35)
+	sc := genEngineScenarioWith(runSeed, tier, 0, func(o *gen.ModelOpts) {
+		if wild {
+			o.Wildcard, o.NoWildcard = 0.5, false
+		}
+	})
+	if wild {
+		// wildcards on both sides of exclusions and next to named users
+		have := map[string]bool{}
+		for _, t := range sc.Tuples {
+			have[t.Key()] = true
+		}
+		for _, t := range g.WildcardTuples(sc.Model, 0.6) {
+			if !have[t.Key()] && !sc.Model.AmbiguousCondShape(t) {
+				have[t.Key()] = true
+				sc.Tuples = append(sc.Tuples, t)
+			}
+		}
+	}
 	sc.Requests = g.ListUsersRequests(sc.Model, 8)
 	if g.Chance(0.25) {
 		sc.Knobs["faults"] = int64(simstore.FaultOpenErr | simstore.FaultIterErr)
